@@ -190,6 +190,7 @@ def _run_scenario(sc):
                             seen.setdefault(uid, []).append(sha)
             ncommits = len(run.commits)
             sc["_observed"] = [S.observed_note_lines(run.repo.note(sha)) for sha, _ in run.commits[1:]]
+            sc["_commit_ok"] = list(run.commit_ok)
             sc["_skip"] = sorted(stale_initial | o2_taint)
     except Exception as ex:
         failures.append(("runner-exception", {"error": repr(ex), "trace": traceback.format_exc()[-1500:]}))
@@ -214,7 +215,7 @@ def phase_e2e(res, seeds, threads=16):
     for sc in scs:
         if "_observed" not in sc:
             continue
-        n2, bad2 = S.sys_compare(sc, sc.pop("_observed"), C.run_driver, skip_paths=sc.pop("_skip", []))
+        n2, bad2 = S.sys_compare(sc, sc.pop("_observed"), C.run_driver, skip_paths=sc.pop("_skip", []), commit_ok=sc.pop("_commit_ok", None))
         ncmp += n2; nbad += len(bad2)
         if bad2 and first is None:
             first = {"seed": sc["seed"], "disagreement": bad2[0]}
